@@ -33,7 +33,7 @@ func main() {
 		err = genTags(os.Args[2], os.Args[3])
 	case "runasync":
 		err = genRunAsync(os.Args[2], os.Args[3])
-	case "gofn", "gofn-math", "gofn-mp", "gofn-httpgun", "gofn-istep", "gofn-waiter", "gofn-instance", "gofn-runinst", "gofn-phoutrun":
+	case "gofn", "gofn-math", "gofn-mp", "gofn-httpgun", "gofn-istep", "gofn-waiter", "gofn-instance", "gofn-runinst", "gofn-phoutrun", "gofn-fullscan":
 		err = genGoFn(os.Args[1], os.Args[2], os.Args[3])
 	case "pooldeps":
 		err = genPoolDeps(os.Args[2], os.Args[3])
@@ -43,6 +43,8 @@ func main() {
 		err = genBodySinks(os.Args[2], os.Args[3])
 	case "redirclient":
 		err = genRedirClient(os.Args[2], os.Args[3])
+	case "sampleacquire":
+		err = genSampleAcquire(os.Args[2], os.Args[3])
 	case "register":
 		err = genRegister(os.Args[2], os.Args[3])
 	case "grpcwarmup":
